@@ -136,7 +136,11 @@ theorem c11_stops_not_jumps (first : PlaylistView) (i : Int) (pl : PlaylistView)
 /-- **End of stream.** (a) the sentinel is pushed exactly when the selected segment is the last
     entry of an ENDLIST playlist; (b) then the loop ends at once with `eos` — no further request;
     (c) conversely `eos` is reached only right after requesting the last segment of an ENDLIST
-    playlist of the history; (d) the Low-Latency loop never reports end of stream;
+    playlist of the history; (d) the Low-Latency loop (fix-F28) runs until the first reloaded
+    playlist WITHOUT a preload hint: it reports end of stream exactly when that playlist carries
+    ENDLIST, "preload hint disappeared" exactly when it does not; by then it has made one hint
+    fetch and one playlist fetch for each of the `k + 1` hinted playlists before it (`c11_ll` (3):
+    the last hinted part was requested) and nothing afterwards;
     (e) the client yields `ErrClientEOS` iff every stream ended. -/
 theorem c11_eos (first : PlaylistView) (cur : Option Int) (pl : PlaylistView) (rest : List PlaylistView) :
     (∀ s, selectNextF first cur pl = .ok s →
@@ -146,7 +150,13 @@ theorem c11_eos (first : PlaylistView) (cur : Option Int) (pl : PlaylistView) (r
     ∧ ((tradLoop first cur pl rest).2 = .eos →
         ∃ plk sk, plk ∈ pl :: rest ∧ plk.endlist = true ∧ sk.id = plk.msn + plk.segs.length - 1 ∧
           plk.segs.getLast? = some sk.seg ∧ (tradLoop first cur pl rest).1.getLast? = some (segReq sk))
-    ∧ (∀ skip, (llLoop skip pl rest).2 ≠ .eos)
+    ∧ (pl.hint.isSome = true → ∀ skip,
+        ((llLoop skip pl rest).2 = .eos ↔
+            ∃ p, rest.find? (fun p => p.hint.isNone) = some p ∧ p.endlist = true)
+        ∧ ((llLoop skip pl rest).2 = .hintDisappeared ↔
+            ∃ p, rest.find? (fun p => p.hint.isNone) = some p ∧ p.endlist = false)
+        ∧ (∀ k, rest.findIdx? (fun p => p.hint.isNone) = some k →
+            (llLoop skip pl rest).1.length = 2 * (k + 1)))
     ∧ (∀ outs : List Outcome, clientOutcome outs = .eos ↔ ∀ o ∈ outs, o = .eos) := by
   refine ⟨?_, ?_, ?_, ?_, ?_⟩
   · intro s h
@@ -156,8 +166,19 @@ theorem c11_eos (first : PlaylistView) (cur : Option Int) (pl : PlaylistView) (r
     rw [tradLoop]
     cases rest <;> simp [h, hl]
   · exact tradLoop_eos first rest cur pl
-  · intro skip
-    exact llLoop_not_eos skip rest pl
+  · intro hh skip
+    obtain ⟨ho, hl⟩ := llLoop_outcome skip rest pl hh
+    refine ⟨?_, ?_, ?_⟩
+    · rw [ho]
+      cases hf : rest.find? (fun p => p.hint.isNone) with
+      | none => simp
+      | some p => cases he : p.endlist <;> simp [llEndOfStream, he]
+    · rw [ho]
+      cases hf : rest.find? (fun p => p.hint.isNone) with
+      | none => simp
+      | some p => cases he : p.endlist <;> simp [llEndOfStream, he]
+    · intro k hk
+      rw [hl, hk]
   · intro outs
     unfold clientOutcome
     cases hf : outs.find? (fun o => decide (o ≠ Outcome.eos)) with
@@ -276,6 +297,21 @@ example :
     h.1.map (fun r => (r.kind, r.uri, r.skip)) =
       [(.hint, "part0.mp4", false), (.playlist, "", true), (.hint, "part1.mp4", false), (.playlist, "", true)]
     ∧ h.2 = .hintDisappeared ∧ isLowLatency (ll true 0) = true := by
+  decide
+-- c11_eos (d): the stream ends — ENDLIST playlist without hint ⇒ eos after hint 0, playlist, hint 1, playlist
+private def llEnd (n : Nat) (hint : Bool) : PlaylistView := { ll true n hint with endlist := true }
+example :
+    let h := runLowLatency (ll true 0) [ll true 1, llEnd 2 false, ll true 3]
+    h.1.map (fun r => (r.kind, r.uri)) =
+      [(.hint, "part0.mp4"), (.playlist, ""), (.hint, "part1.mp4"), (.playlist, "")]
+    ∧ h.2 = .eos := by
+  decide
+-- … an ENDLIST playlist that still advertises a hint does not end the loop: its hint is fetched too
+example :
+    let h := runLowLatency (ll true 0) [llEnd 1 true, llEnd 2 false]
+    h.1.map (fun r => (r.kind, r.uri)) =
+      [(.hint, "part0.mp4"), (.playlist, ""), (.hint, "part1.mp4"), (.playlist, "")]
+    ∧ h.2 = .eos := by
   decide
 example : ((runLowLatency (ll false 0) [ll false 1]).1.filter (·.kind = .playlist)).map (·.skip) = [false, false] := by decide
 
